@@ -9,7 +9,11 @@ C: (a) random alloc/drop/collect sequences on a real `gluon_vm::gc::Gc` against 
    Account model; (b) generated recursion-/allocation-heavy programs under a sweep of stack and
    memory limits, judged against the generator's closed form and the property's own observables
    (value | StackOverflow | OutOfMemory; allocated_memory() <= limit; 10^6 tail iterations under
-   64 slots; deep non-tail recursion in a child process; interrupts).
+   64 slots; deep non-tail recursion in a child process; interrupts); (c) every syntactic tail
+   position (26 shapes: `||`/`&&` right operands, if branches, match alternatives, let/rec-let
+   bodies, closures, partial and over-application, mutual recursion, combinations) as a loop of
+   >= 2*10^5 iterations under 64- and 1000-slot stacks; (d) a static scan of all real bytecode:
+   a Call whose result is only returned must be a TailCall.
 """
 import json
 import os
@@ -62,6 +66,9 @@ def tie(ctx, tier_override=None, tag="tie"):
     cov["accounting_sequences"] = stats["acct_sequences"]
     cov["runtime_evaluations"] = stats["runtime_evaluations"]
     cov["tail_runs"] = stats["tail_runs"]
+    cov["tail_shape_runs"] = stats.get("tail_shape_runs", [])
+    cov["static_tail_calls"] = stats.get("static_tail_calls")
+    cov["static_call_in_tail_position"] = stats.get("static_call_in_tail_position", [])
     cov["deep_runs"] = stats["deep_runs"]
     cov["interrupt_worst_latency_us"] = stats["interrupt_worst_latency_us"]
     cov["samples"] = (
@@ -93,6 +100,15 @@ def report(ctx, res):
                           case={"model_line": line_in}, expected=m, observed=im)
         else:
             ctx.violation("tie:" + str(i), "model and implementation disagree", case={"model_line": line_in}, expected=m, observed=im)
+    # static tail-position scan of the real bytecode: on the unchanged tree NO function of std or of
+    # the generated programs has a plain Call whose result is only slid/jumped to Return
+    # (emit_call(tail_position), compiler.rs:317), so such a Call is a tail position that lost its
+    # TailCall: one frame per iteration stays on the value stack.
+    for item in (res.get("stats") or {}).get("static_call_in_tail_position", [])[:10]:
+        found += 1
+        ctx.violation("static-tail-position:" + item.split(" ")[0],
+                      "compiled function has a plain Call in tail position (its result is only returned): %s — a call in tail position must be a TailCall to run in constant stack" % item,
+                      case={"function_and_pc": item}, expected="TailCall", observed=item)
     # the model's own statement of the limit arithmetic
     mo = res.get("model_out") or []
     if mo and mo[0].startswith("slack "):
@@ -138,6 +154,10 @@ def run(ctx):
     ctx.obligations.append(common.Obligation(
         "correspondence:gc-accounting", "correspondence", ran and not acct_diffs,
         "%s op sequences (%s ops) on a real Gc vs. Account model; %d disagreements" % (st.get("acct_sequences"), st.get("acct_ops"), len(acct_diffs))))
+    static_bad = st.get("static_call_in_tail_position", []) if ran else []
+    ctx.obligations.append(common.Obligation(
+        "validator:tail-position-calls-are-TailCall", "correspondence", ran and not static_bad,
+        "%s TailCall instructions in %s functions; plain Call in tail position: %s" % (st.get("static_tail_calls"), st.get("functions_verified_input"), static_bad[:4])))
     rt_fail = [r for r in res["runtime"]]
     ctx.obligations.append(common.Obligation(
         "observation:limits-tailcalls-interrupts", "correspondence", ran and not rt_fail,
